@@ -4,7 +4,7 @@ import itertools
 import random
 from io import BytesIO
 
-from .. import env, spec, iffparse
+from .. import env, spec, iffparse, workload
 
 PROPERTY = "C11"
 LEVEL = "exploration"
@@ -158,7 +158,11 @@ def observe(res, T, t, cls, mod, model, case, what):
         key = "record-length" if rec is not None and len(rec) != len(want_rec) else "record-bits"
         res.violation(f"C11:{key}:{T}", f"{T} options record {rec.hex() if rec is not None else None} != expected {want_rec.hex()} after {what}", case)
         return
-    c = mod.clone()
+    try:
+        c = mod.clone()
+    except Exception as e:
+        res.violation(f"C11:clone-raises:{T}:{workload.exc_key(e)}", f"{T}: the module written after {what} does not load again: {e!r}", case)
+        return
     res.count("clones")
     if type(c) is not cls:
         res.violation(f"C11:clone-type:{T}", f"clone is {type(c).__name__}", case)
@@ -296,6 +300,52 @@ def structured(res, T, rng, tier):
                     observe(res, T, t, cls, mod, model, case, f"pair {pair}")
 
 
+def traffic(res, T, t, mod, rng):
+    """Everything else a module lives through between option edits: controller assignments, and for the payload types
+    writes to not-yet-exposed user-defined controllers, embedded controller changes, longer envelopes.  None of it is an
+    option assignment, so the options must read the same afterwards."""
+    import rv.api as api
+    from rv.errors import ControllerValueError
+    res.count("traffic_rounds")
+    cands = [c for c in t.controllers if c.kind in ("range", "compact", "no_offset", "bool", "enum")]
+    for c in rng.sample(cands, min(3, len(cands))):
+        if T == "MetaModule" and c.name.startswith("user_defined"):
+            continue
+        dom = c.domain()
+        v = dom[rng.randrange(len(dom))]
+        try:
+            setattr(mod, c.name, v)
+            res.count("traffic_controller_assignments")
+        except ControllerValueError:
+            res.count("traffic_controller_rejected")
+    if T == "MetaModule":
+        k = mod.user_defined_controllers
+        # a fresh embedded module that no existing mapping refers to (values pushed along arbitrary generated mappings are
+        # outside this property, DESIGN decision 12)
+        amp = mod.project.new_module(api.m.Amplifier)
+        if any(mp.module == amp.index for mp in mod.mappings.values):
+            return
+        if k < 96:
+            slot = rng.randrange(k, 96)
+            mod.mappings.values[slot] = mod.Mapping((amp.index, 0))       # Amplifier.volume 0..1024
+            try:
+                setattr(mod, f"user_defined_{slot + 1}", rng.randint(0, 1024))
+                res.count("traffic_hidden_slot_writes")
+            except ControllerValueError:
+                res.count("traffic_controller_rejected")
+        try:
+            amp.volume = rng.randint(0, 1024)
+            amp.balance = rng.randint(-128, 128)
+            res.count("traffic_embedded_assignments")
+        except ControllerValueError:
+            res.count("traffic_controller_rejected")
+    if T == "Sampler":
+        e = rng.choice([mod.volume_envelope, mod.panning_envelope, mod.pitch_envelope] + list(mod.effect_control_envelopes))
+        npts = rng.choice([2, 12, 13, 14, 40])
+        e.points = [(i * 8, rng.randrange(0, 0x8000)) for i in range(npts)]
+        res.hist("traffic_envelope_points", npts)
+
+
 def random_full(res, T, rng, n):
     from rv.modules import MODULE_CLASSES
     t = spec.load()[T]
@@ -309,7 +359,7 @@ def random_full(res, T, rng, n):
         for _k in range(rng.randint(0, 3)):
             nm = rng.choice(names)
             assign.append((nm, rng.choice(_all_values(by[nm]))))
-        path = rng.choice(("setattr", "constructor", "mixed"))
+        path = rng.choice(("setattr", "constructor", "mixed", "setattr-on-generated"))
         case = {"type": T, "path": path, "assign": [[nm, _ival(v)] for nm, v in assign]}
         res.case((T, path, tuple((nm, _ival(v)) for nm, v in assign)))
         res.count("random_full_assignments")
@@ -329,7 +379,18 @@ def random_full(res, T, rng, n):
                 k = rng.randint(0, len(assign))
                 kw = dict(assign[:k])
                 rest = assign[k:]
-            mod = cls(**kw)
+            if path == "setattr-on-generated":
+                # the module already has a life: generated controllers, payload (samples, long envelopes, embedded
+                # project, mappings) and options; then every option is assigned
+                try:
+                    gc = workload.module_case(rng.randrange(1 << 30), rng.randrange(1 << 20), "quick", T, ctx="synth")
+                    mod = gc.obj
+                    case["generated_base"] = [gc.seed, gc.index]
+                    res.count("generated_bases")
+                except Exception:
+                    mod = cls()
+            else:
+                mod = cls(**kw)
             for nm, v in kw.items():
                 if nm not in group:
                     model.assign(nm, v)
@@ -338,6 +399,10 @@ def random_full(res, T, rng, n):
                 setattr(mod, nm, v)
                 model.assign(nm, v)
                 model.sync_partners(nm, mod, res)
+        if rng.random() < 0.5:
+            traffic(res, T, t, mod, rng)
+            model.sync_group(mod, res)
+            case["traffic"] = True
         observe(res, T, t, cls, mod, model, case, f"{path} assignment")
         # second stage: the module is now taken from a file (clone) and its options are changed again,
         # in particular lowered / switched off; what is saved must be the new state, not the loaded record
@@ -357,6 +422,8 @@ def random_full(res, T, rng, n):
                 model.assign(nm, v)
                 model.sync_partners(nm, mod2, res)
                 stage2.append([nm, _ival(v)])
+            if rng.random() < 0.5:
+                traffic(res, T, t, mod2, rng)
             res.count("two_stage_assignments")
             res.case((T, "stage2", tuple(map(tuple, stage2))))
             observe(res, T, t, cls, mod2, model, dict(case, stage2=stage2), "second-stage assignment on a cloned (loaded) module")
